@@ -214,7 +214,7 @@ static const uint8_t *g_r_sdata, *g_r_ldata; static size_t g_r_ssize, g_r_lsize;
 void ldb_approximate_sizes(ldb_t *db, const ldb_range_t *range, size_t length, uint64_t *sizes) {
   rec(F_SIZES); g_db = db; g_sz_len = length; g_sz_out = sizes;
   g_r_live = L_is_live(range);
-  g_r_fits = L_size_of(range) / sizeof(ldb_range_t) >= length;
+  g_r_fits = length <= 0x7fffffff && L_size_of(range) >= length * sizeof(ldb_range_t);
   if (g_rj < length) {
     g_r_sdata = range[g_rj].start.data; g_r_ssize = range[g_rj].start.size;
     g_r_ldata = range[g_rj].limit.data; g_r_lsize = range[g_rj].limit.size;
@@ -324,10 +324,7 @@ static void reset(void) {
   g_db = g_opt = g_name = g_batch = g_batch2 = g_snap = g_iter = g_itptr = NULL;
   g_kdata = g_vdata = NULL; g_ksize = g_vsize = 0; g_has_k = g_has_v = 0; g_live_at_call = -1; g_dbptr_seen = 0;
   g_rc = nondet_int();
-  /* the message of that status: a C string of arbitrary length and content (the native's static storage) */
-  g_msg_len = nondet_size();
-  g_msg = malloc(g_msg_len + 1); __CPROVER_assume(g_msg != NULL && g_msg_len + 1 != 0);
-  g_msg[g_msg_len] = 0;
+  g_msg = NULL; g_msg_len = 0;
   g_cp_j = nondet_size();
   g_dbopt_dflt = nondet_dbopt(); g_readopt_dflt = nondet_readopt(); g_writeopt_dflt = nondet_writeopt();
   ldb_dbopt_default = &g_dbopt_dflt; ldb_readopt_default = &g_readopt_dflt; ldb_writeopt_default = &g_writeopt_dflt; ldb_iteropt_default = &g_readopt_dflt;
@@ -340,6 +337,10 @@ static void reset(void) {
  * outside lcdb's own range are system error numbers and are reported as "IO error: <system text>". */
 struct errslot { char *slot; char *old; int had_old; char old_b0; };
 static void err_arm(struct errslot *e) {
+  /* the message of the status the native is going to return: a C string of arbitrary length and content (the native's static storage) */
+  g_msg_len = nondet_size();
+  g_msg = malloc(g_msg_len + 1); __CPROVER_assume(g_msg != NULL && g_msg_len + 1 != 0);
+  g_msg[g_msg_len] = 0;
   e->had_old = nondet_int() ? 1 : 0; e->old = NULL; e->old_b0 = 0;
   if (e->had_old) {
     size_t n = nondet_size(); __CPROVER_assume(n >= 1);
